@@ -515,7 +515,16 @@ class Engine:
             c = {"n": 10, "r": 13, "t": 9, "\\": 92, "'": 39, "0": 0}.get(m.group(1))
             if c is not None:
                 return Int(z3.BitVecVal(c, 32), "char")
-        m = re.fullmatch(r"core::num::<impl (\w+)>::(MAX|MIN)", t)
+        m = re.fullmatch(r"(?:core::num::<impl (\w+)>|(\w+))::(MAX|MIN)", t)
+        if m and (m.group(1) or m.group(2)) in INT_TY:
+            tyname = m.group(1) or m.group(2)
+            w, sg = INT_TY[tyname]
+            if m.group(3) == "MAX":
+                val = (1 << (w - 1)) - 1 if sg else (1 << w) - 1
+            else:
+                val = -(1 << (w - 1)) if sg else 0
+            return Int(z3.BitVecVal(val, w), tyname)
+        m = re.fullmatch(r"core::num::<impl (\w+)>::(MAX|MIN)__never", t)
         if m:
             w, sg = INT_TY[m.group(1)]
             if m.group(2) == "MAX":
